@@ -84,7 +84,21 @@ Proof.
     destruct (d_wait_since x); [|reflexivity]. destruct (H eq_refl ltac:(discriminate)) as [-> ->]. reflexivity.
 Qed.
 
+(** ... and the same with a condition on the scenario itself instead of the initialised world: no source's first cycle has length
+    zero (then initialisation moves no part and is a strict step as well) *)
+Theorem C08_waiting_device_holds_nothing_positive_sources : forall sc s d z,
+  (forall d x, aget d (f_devs (fq_world sc)) = Some x -> d_kind x = KSource -> 0 < d_cycle x /\ 0 < d_cycle x + d_offset x) ->
+  reach_in sc s ->
+  d_kind (getd (fst s) d) = KHandler \/ d_kind (getd (fst s) d) = KProcessor \/ d_kind (getd (fst s) d) = KSink ->
+  d_wait_since (getd (fst s) d) = Some z ->
+  d_part (getd (fst s) d) = None /\ d_out (getd (fst s) d) = None.
+Proof.
+  intros sc s d z SP HR K W. apply (waiting_device_holds_nothing_src sc s d z SP HR); [|exact W].
+  destruct K as [K|[K|K]]; rewrite K; reflexivity.
+Qed.
+
 Print Assumptions C08_waiting_device_holds_nothing.
+Print Assumptions C08_waiting_device_holds_nothing_positive_sources.
 Print Assumptions C08_wait_okb_def.
 
 (** Non-vacuity: source -> processor (cycle 24) -> sink.  The initialised world passes the condition with processor and sink
